@@ -193,3 +193,24 @@ Fixpoint cursor_ok (fuel : nat) (exact_in b4q update_acc : bool) (fee limit : Z)
     | _ => True
     end
   end.
+
+(* ---- regression: AllocateIncentive before the fix "take the coins first" ----
+   x/liquidityincentive's BeginBlocker calls AllocateIncentive on the block context (no transaction)
+   and only logs an error.  Before the fix the accumulator was written before the bank send, so a
+   failing send left the growth in place.  This is the state such a call left behind. *)
+Definition allocate_nontx_prefix (s : amm) (coins : vec) : amm :=
+  if negb (has_position (a_pool s)) then s else
+  if p_liq (a_pool s) <=? 0 then s else
+  match vquo_dec_trunc (map dec_of_int coins) (p_liq (a_pool s)) with
+  | None => s
+  | Some g =>
+    match vadd (a_acc_value s) g with
+    | None => s
+    | Some v =>
+      let s1 := set_acc s v (a_acc_shares s) in
+      match send s1 AUser AFee coins with Ok s2 => s2 | _ => s1 end
+    end
+  end.
+(* the repaired call: a failing send leaves nothing behind *)
+Definition allocate_nontx (s : amm) (coins : vec) : amm :=
+  match allocate_incentive s coins with Ok s' => s' | _ => s end.
